@@ -6,6 +6,7 @@ by reference and a fresh interpreter (egverif.worker) can load them.
 No class overrides __eq__/__hash__ (the properties assume identity semantics).
 """
 
+import abc
 import enum
 import functools
 
@@ -159,6 +160,14 @@ class VCity(Vertex):
 
 
 class DSub(DirectedEdge):
+    pass
+
+
+class AbcEdge(DirectedEdge, metaclass=abc.ABCMeta):
+    """An edge class with a metaclass of its own (ABCMeta: the class takes part in an abstract-base-class scheme)."""
+
+
+class AbcUEdge(UnDirectedEdge, metaclass=abc.ABCMeta):
     pass
 
 
@@ -373,7 +382,7 @@ EDGE_CLASSES = {
     )
 }
 # classes for graph-spec based checks only (not part of the history driver's op language)
-SPEC_ONLY_EDGE_CLASSES = {"DuckLink": DuckLink, "OtherLink~": OtherLinkNamesake}
+SPEC_ONLY_EDGE_CLASSES = {"DuckLink": DuckLink, "OtherLink~": OtherLinkNamesake, "AbcEdge": AbcEdge, "AbcUEdge": AbcUEdge}
 SPEC_ONLY_VERTEX_CLASSES = {"Vertex~": VertexNamesake, "VSub~": VSubNamesake, "UnhashableVertex": UnhashableVertex,
                             "RankedVertex": RankedVertex, "VDirLess": VDirLess, "VRecord": VRecord,
                             "ClusterVertex": ClusterVertex, "VBag": VBag, "VNamed": VNamed, "VCity": VCity}
